@@ -281,6 +281,15 @@ def _table_readers(ctx):
     return gc_ok, member
 
 
+def _compressor_lookup(v):
+    """the key expression when v looks a compressor up: get_compressor(x) or the table itself, _known_compressions[x]"""
+    if isinstance(v, ast.Call) and dotted(v.func) == "get_compressor" and len(v.args) == 1 and not v.keywords:
+        return v.args[0]
+    if isinstance(v, ast.Subscript) and norm(v.value) == "_known_compressions":
+        return v.slice
+    return None
+
+
 def _nonraising_nodes(ctx, flow):
     """CFG nodes whose header provably cannot raise: constant arithmetic, and
     `get_compressor(x)` dominated by a passed `is_compression_format(x)` test."""
@@ -294,9 +303,8 @@ def _nonraising_nodes(ctx, flow):
         if all(isinstance(n, (ast.Constant, ast.BinOp, ast.operator, ast.Load)) for n in ast.walk(v)):
             out.update(cfg.nodes(st))
             continue
-        if table_ok and isinstance(v, ast.Call) and dotted(v.func) == "get_compressor" and len(v.args) == 1 \
-                and isinstance(v.args[0], ast.Name):
-            x = v.args[0].id
+        if table_ok and isinstance(_compressor_lookup(v), ast.Name):
+            x = _compressor_lookup(v).id
             # a dominating guard `if not is_compression_format(x): ... return`
             guards = []
             for g in flow.stmts:
@@ -545,7 +553,7 @@ def rule_writer(ctx):
     flow = Flow(ca)
     comp_names = set()
     for st in flow.stmts:
-        if isinstance(st, ast.Assign) and isinstance(st.targets[0], ast.Name) and calls_in(st.value, "get_compressor"):
+        if isinstance(st, ast.Assign) and isinstance(st.targets[0], ast.Name) and _compressor_lookup(st.value) is not None:
             comp_names.add(st.targets[0].id)
     others = []
     for c in calls_in(ca.node):
